@@ -7,12 +7,24 @@ import PP.Model.Color
 import PP.Model.Cost
 import PP.Spec.Unescape
 import PP.Proofs.ToksVal
+import PP.Spec.Reader
 open PP PP.Sexp
 
 def encodeCT : Tok.CT → Sexp
   | .code s => ofStr "c" s
   | .lit (some v) => ofStr "l" v
   | .lit none => sym "lbad"
+
+partial def encodeRVal : Tok.RVal → Sexp
+  | .num l => ofStr "num" l
+  | .kw s => ofStr "kw" s
+  | .str b s => .list (sym "str" :: ofNat (if b then 1 else 0) :: s.map ofNat)
+  | .fspecial n => ofStr "fs" n
+  | .list xs => .list (sym "list" :: xs.map encodeRVal)
+  | .tuple xs => .list (sym "tuple" :: xs.map encodeRVal)
+  | .set xs => .list (sym "set" :: xs.map encodeRVal)
+  | .fset xs => .list (sym "fset" :: xs.map encodeRVal)
+  | .dict kvs => .list (sym "dict" :: kvs.map fun (k, v) => .list [encodeRVal k, encodeRVal v])
 
 /-- one layout configuration `(w rw smart)` -/
 def decodeCfg : Sexp → Option Cfg
@@ -89,7 +101,11 @@ def handle (req : Sexp) : Sexp :=
     | some v, some sets =>
       .list (sym "ok" :: sets.map fun st =>
         .list [.list (sym "toks" :: (Tok.ctoks (Pr.sdocsM st v)).map encodeCT),
-               .list (sym "canon" :: (Tok.canonW st.ctx.norm v none).map encodeCT)])
+               .list (sym "canon" :: (Tok.canonW st.ctx.norm v none).map encodeCT),
+               (let ts := Tok.canonW st.ctx.norm v none
+                match Tok.parseV (2 * ts.length + 10) ts with
+                | some (r, []) => .list [sym "read", encodeRVal r]
+                | _ => .list [sym "read", sym "none"])])
     | _, _ => sym "bad-request"
   | .list [.atom "strlines", isB, slash, maxLen, q, .list chars] =>
     match nat? isB, nat? slash, nat? maxLen, nat? q, nats? chars with
